@@ -39,6 +39,9 @@ struct Got { int serial = -1; int value = 0; bool intact = false; };
 
 struct Run;
 Run * g_run = nullptr;
+// feedback for the schedule enumerator: what the last scripted run looked like
+long g_lastSteps = 0;
+int g_lastEffective = 0, g_lastThreads = 0;
 void onListenerEnter(int serial, int value, bool intact);
 void onListenerExit(int serial);
 bool onPredicate(int serial);
@@ -190,6 +193,7 @@ struct Run
 	std::vector<int> predKind, predParam, predCount;
 	bool failed = false;
 	bool anyDecline = false;
+	bool knownFifoPutBack = false;
 	bool heter = false;
 	int dqnAlive = 0;
 	std::ostringstream log;
@@ -461,24 +465,51 @@ struct Run
 				if(c.kind == C_PROCESSONE && c.dispatched > 1) { fail("cq.processOne.many", "C06", "processOne dispatched more than one event"); return; }
 			}
 		}
-		// FIFO per (producer, consumer thread): only when nothing was ever declined
-		if(! anyDecline) {
+		// FIFO per (producer, consumer thread). An inversion has two possible causes, told apart here:
+		//  - the older event was, while the newer one was consumed, possibly inside the private batch of a processIf /
+		//    processUntil call on another thread that did not dispatch it and put it back afterwards. The library does
+		//    that by design (the whole queue is swapped out, leftovers are spliced back at the front later), the
+		//    statement of C06 does not allow it: a genuine defect that has no small repair, listed in KNOWN_FINDINGS.txt
+		//    under the signature cq.fifo.putback. It is counted, and reported as a failure only when the driver asks for
+		//    known findings (VERIF_REPORT_KNOWN, set for the replay stage), so that the search goes on behind it;
+		//  - anything else is a violation (cq.fifo).
+		{
+			static const bool reportKnown = getenv("VERIF_REPORT_KNOWN") != nullptr;
 			for(size_t t = 0; t < sched->threadCount(); ++t) {
 				// consumption order on thread t: by time of the dispatch entry / take
-				std::vector<std::pair<long, const EventRec *> > seen;
+				struct Seen { long when; const EventRec * e; int call; };
+				std::vector<Seen> seen;
 				for(const EventRec & e : events) {
-					for(const auto & u : e.dispatches) if(u.thread == (int)t) seen.push_back(std::make_pair(u.t0, &e));
-					for(const auto & u : e.takes) if(u.thread == (int)t) seen.push_back(std::make_pair(u.t1, &e));
+					for(const auto & u : e.dispatches) if(u.thread == (int)t) seen.push_back(Seen { u.t0, &e, u.call });
+					for(const auto & u : e.takes) if(u.thread == (int)t) seen.push_back(Seen { u.t1, &e, u.call });
 				}
-				std::sort(seen.begin(), seen.end(), [](const std::pair<long, const EventRec *> & a, const std::pair<long, const EventRec *> & b) { return a.first < b.first || (a.first == b.first && a.second->serial < b.second->serial); });
-				std::map<int, int> lastSeq;
-				for(const auto & s : seen) {
-					auto it = lastSeq.find(s.second->producer);
-					if(it != lastSeq.end() && it->second > s.second->seq) {
-						fail("cq.fifo", "C06", "thread " + std::to_string(t) + " consumed event #" + std::to_string(s.second->serial) + " of producer " + std::to_string(s.second->producer) + " after a later event of the same producer");
-						return;
+				std::sort(seen.begin(), seen.end(), [](const Seen & a, const Seen & b) { return a.when < b.when || (a.when == b.when && a.e->serial < b.e->serial); });
+				struct Last { int seq; long when; int call; };
+				std::map<int, Last> last; // producer -> newest event consumed so far
+				for(const Seen & s : seen) {
+					const EventRec & older = *s.e;
+					auto it = last.find(older.producer);
+					if(it != last.end() && it->second.seq > older.seq) {
+						// the consumer itself skipped the older event: its own processIf dispatched the newer one and not the older
+						// one (declined, or of a prototype the predicate is not callable with). That is the caller's choice, not an inversion.
+						const int cNew = it->second.call;
+						if(cNew >= 0 && cNew < (int)calls.size() && calls[(size_t)cNew].kind == C_PROCESSIF && s.call != cNew) continue;
+						const long whenNewer = it->second.when;
+						bool heldElsewhere = false;
+						for(const CallRec & c : calls) {
+							if(c.kind != C_PROCESSIF && c.kind != C_PROCESSUNTIL) continue;
+							if(c.thread == (int)t) continue;
+							bool dispatchedIt = false;
+							for(const auto & u : older.dispatches) if(u.thread == c.thread && u.t0 >= c.t0 && (c.t1 < 0 || u.t0 <= c.t1)) dispatchedIt = true;
+							if(dispatchedIt) continue;
+							if(c.t0 <= whenNewer && (c.t1 < 0 || c.t1 >= older.enqBegin)) heldElsewhere = true;
+						}
+						const std::string what = "thread " + std::to_string(t) + " consumed event #" + std::to_string(older.serial) + " of producer " + std::to_string(older.producer) + " after a later event of the same producer";
+						if(! heldElsewhere) { fail("cq.fifo", "C06", what); return; }
+						knownFifoPutBack = true;
+						if(reportKnown) { fail("cq.fifo.putback", "C06", what + " (the older event was inside the batch of a processIf / processUntil call of another thread, which put it back afterwards)"); return; }
 					}
-					lastSeq[s.second->producer] = s.second->seq;
+					if(it == last.end() || it->second.seq < older.seq) last[older.producer] = Last { older.seq, s.when, s.call };
 				}
 			}
 		}
@@ -549,14 +580,30 @@ struct Run
 		return 1;
 	}
 
+	void dropSched() {
+		g_lastSteps = sched->now();
+		g_lastEffective = sched->scriptEffective;
+		g_lastThreads = (int)sched->threadCount() - 1;
+		sched.reset();
+	}
+
 	void run() {
 		const int cfg = prog.params.size() > 0 ? ((prog.params[0] % 3) + 3) % 3 : 0;
 		const int strategy = prog.params.size() > 1 ? ((prog.params[1] % 3) + 3) % 3 : 0;
 		const bool spurious = prog.params.size() > 2 && (prog.params[2] & 1);
-		ChoiceSource choice(prog, fnv1a(toText(prog)));
+		// params[3] == 77: scripted schedule (bounded-exhaustive exploration); the schedule bytes are then records of
+		// (step high byte, step low byte, thread) instead of random choices
+		const bool scripted = prog.params.size() > 3 && prog.params[3] == 77;
+		Program choiceProg = prog;
+		if(scripted) choiceProg.sched.clear();
+		ChoiceSource choice(scripted ? choiceProg : prog, fnv1a(toText(prog)));
 		installSchedHook();
 		dtorHook() = &Run::dtorObserver;
-		sched.reset(new Sched(choice, strategy, spurious));
+		sched.reset(new Sched(choice, scripted ? 3 : strategy, scripted ? false : spurious));
+		if(scripted) sched->scriptHighFirst = prog.params.size() > 2 && (prog.params[2] & 1);
+		if(scripted) for(size_t i = 0; i + 3 <= prog.sched.size(); i += 3) {
+			sched->script.push_back(std::make_pair((long)prog.sched[i] * 256 + prog.sched[i + 1], (int)prog.sched[i + 2]));
+		}
 		sched->csGroupOf = &queueCsGroup;
 		switch(cfg) {
 		case 0: q.reset(new HomoQ<SchedThreading>()); break;
@@ -581,7 +628,7 @@ struct Run
 		}
 		if(failed) {
 			q.reset();
-			sched.reset();
+			dropSched();
 			dtorHook() = nullptr;
 			return;
 		}
@@ -598,7 +645,7 @@ struct Run
 		v.subEvaluations = 1;
 		classes();
 		q.reset();
-		sched.reset();
+		dropSched();
 		dtorHook() = nullptr;
 		if(! failed) {
 			if(ledger().isFlagged()) fail("ledger.flag", "C06,C08", ledger().message());
@@ -727,6 +774,7 @@ Verdict run(const Program & p, const std::string & prop)
 		cls(r.emptyDuringDispatch, "observation_overlaps_dispatching_call");
 		cls(r.sentinels > 0, "waiters_released_by_sentinel");
 		cls(r.heter, "heterogeneous_queue");
+		cls(r.knownFifoPutBack, "known_finding_fifo_inversion_after_putback_by_another_thread");
 		if(prop == "C06") v.nontrivial = r.overlapPC && r.overlapCC && (r.csPreempt || r.unPreempt);
 		else if(prop == "C07") v.nontrivial = r.waiterParkedAtEnq;
 		else if(prop == "C11") v.nontrivial = r.emptyDuringDispatch;
@@ -738,8 +786,103 @@ Verdict run(const Program & p, const std::string & prop)
 	return v;
 }
 
+
+// ---------------------------------------------------------------- bounded-exhaustive schedules
+// For a fixed list of small thread programs, every schedule with at most K preemptions (K from VERIF_ENUM_K, default 1):
+// the run follows one thread until it blocks or ends, and at up to K chosen steps the baton is handed to a chosen other
+// thread. Depth-first: a run reports how many steps it took, its children add one more preemption at a later step.
+// A preemption that had no effect (target not runnable) reproduces its parent, so that subtree is skipped.
+Op mk(int kind, int a = 0, int b = 0, int c = 0) { Op o; o.kind = kind; o.a = a; o.b = b; o.c = c; return o; }
+Op thread(std::initializer_list<Op> body) { Op t = mk(T_THREAD); t.body.assign(body.begin(), body.end()); return t; }
+
+std::vector<Program> makeTemplates(const std::string & prop)
+{
+	std::vector<Program> out;
+	auto add = [&](int pre, std::initializer_list<Op> threads) {
+		Program p;
+		for(int i = 0; i < pre; ++i) p.ops.push_back(mk(T_PRE_ENQ, i & 1, 100 + i));
+		for(const Op & t : threads) p.ops.push_back(t);
+		out.push_back(p);
+	};
+	const Op enq0 = mk(C_ENQ, 0, 7), enq1 = mk(C_ENQ, 1, 8);
+	if(prop == "C07") {
+		const Op waits[2] = { mk(C_WAIT_DRAIN, 0), mk(C_WAITFOR_DRAIN, 0, 2) };
+		for(const Op & w : waits) {
+			add(0, { thread({ w }), thread({ enq0 }) });
+			add(0, { thread({ w }), thread({ mk(C_DQN_BEGIN), enq0, mk(C_DQN_END) }) });
+			add(0, { thread({ w }), thread({ mk(C_DQN_BEGIN), mk(C_DQN_BEGIN), enq0, mk(C_DQN_END), mk(C_DQN_END) }) });
+			add(0, { thread({ w }), thread({ enq0 }), thread({ enq1 }) });
+			add(0, { thread({ w }), thread({ mk(C_DQN_BEGIN), mk(C_DQN_END) }), thread({ enq0 }) });
+			add(0, { thread({ w }), thread({ mk(C_DQN_BEGIN), mk(C_DQN_BEGIN), mk(C_DQN_END), mk(C_DQN_END) }), thread({ enq0 }) });
+			add(0, { thread({ w }), thread({ mk(C_DQN_BEGIN), mk(C_DQN_END) }), thread({ mk(C_DQN_BEGIN), mk(C_DQN_END) }), thread({ enq0 }) });
+			add(0, { thread({ w }), thread({ mk(C_DQN_BEGIN), enq0, mk(C_DQN_END) }), thread({ enq1 }) });
+			add(0, { thread({ w }), thread({ mk(C_DQN_BEGIN), enq0, mk(C_DQN_END) }), thread({ mk(C_DQN_BEGIN), enq1, mk(C_DQN_END) }) });
+			add(0, { thread({ w }), thread({ w }), thread({ enq0, enq1 }) });
+			add(0, { thread({ w }), thread({ enq0 }), thread({ mk(C_PROCESS) }) });
+			add(1, { thread({ w }), thread({ mk(C_PROCESSONE) }), thread({ enq0 }) });
+		}
+	}
+	else if(prop == "C11") {
+		const Op cons[4] = { mk(C_PROCESS), mk(C_PROCESSONE), mk(C_TAKE), mk(C_CLEAR) };
+		for(const Op & c : cons) {
+			add(1, { thread({ mk(C_EMPTYQ) }), thread({ c }) });
+			add(1, { thread({ mk(C_EMPTYQ), mk(C_EMPTYQ) }), thread({ c }), thread({ enq0 }) });
+			add(2, { thread({ mk(C_EMPTYQ) }), thread({ c, c }) });
+			add(1, { thread({ mk(C_WAITFOR_DRAIN, 0, 1) }), thread({ c }) });
+		}
+		for(int i = 0; i < 2; ++i) for(int j = i; j < 2; ++j) {
+			add(2, { thread({ mk(C_EMPTYQ) }), thread({ cons[i] }), thread({ cons[j] }) });
+			add(1, { thread({ mk(C_EMPTYQ) }), thread({ cons[i] }), thread({ enq0, cons[j] }) });
+		}
+	}
+	else {
+		const Op cons[7] = { mk(C_PROCESS), mk(C_PROCESSONE), mk(C_PROCESSIF, 1, 0), mk(C_PROCESSUNTIL, 1, 0), mk(C_TAKE), mk(C_PEEK), mk(C_CLEAR) };
+		for(int i = 0; i < 7; ++i) {
+			add(0, { thread({ enq0, enq1 }), thread({ cons[i] }) });
+			add(1, { thread({ enq0 }), thread({ cons[i], cons[i] }) });
+			for(int j = i; j < 7; ++j) add(2, { thread({ cons[i] }), thread({ cons[j] }), thread({ enq0 }) });
+		}
+	}
+	return out;
+}
+
+std::string enumerate(const std::string & prop, const std::function<bool (const Program &)> & sink)
+{
+	int K = 1, shard = 0, shards = 1;
+	if(const char * e = getenv("VERIF_ENUM_K")) K = std::max(0, std::min(atoi(e), 3));
+	if(const char * e = getenv("VERIF_ENUM_SHARD")) { if(sscanf(e, "%d/%d", &shard, &shards) != 2 || shards < 1) { shard = 0; shards = 1; } }
+	const std::vector<Program> templates = makeTemplates(prop);
+	long index = 0, runs = 0, pruned = 0;
+	bool stop = false;
+	std::function<void (Program &, std::vector<std::pair<long, int> > &, int)> dfs = [&](Program & p, std::vector<std::pair<long, int> > & pre, int depth) {
+		if(stop) return;
+		p.sched.clear();
+		for(auto & r : pre) { p.sched.push_back((unsigned char)(r.first >> 8)); p.sched.push_back((unsigned char)(r.first & 255)); p.sched.push_back((unsigned char)r.second); }
+		++runs;
+		if(! sink(p)) { stop = true; return; }
+		const long steps = std::min<long>(g_lastSteps, 4000);
+		const int threads = g_lastThreads;
+		if(depth > 0 && g_lastEffective < depth) { ++pruned; return; }
+		if(depth >= K) return;
+		const long from = pre.empty() ? 1 : pre.back().first + 1;
+		for(long s = from; s <= steps && ! stop; ++s) for(int t = 1; t <= threads && ! stop; ++t) {
+			pre.push_back(std::make_pair(s, t));
+			dfs(p, pre, depth + 1);
+			pre.pop_back();
+		}
+	};
+	for(const Program & tpl : templates) for(int cfg = 0; cfg < 3 && ! stop; ++cfg) for(int order = 0; order < 2 && ! stop; ++order) {
+		if(index++ % shards != shard) continue;
+		Program p = tpl;
+		p.params = { cfg, 0, order, 77 };
+		std::vector<std::pair<long, int> > pre;
+		dfs(p, pre, 0);
+	}
+	return std::to_string(templates.size()) + " thread programs x 3 queue configurations x 2 orders for forced switches (lowest / highest runnable thread first), every schedule with <= " + std::to_string(K) + " preemption(s) (shard " + std::to_string(shard) + "/" + std::to_string(shards)
+		+ ": " + std::to_string(runs) + " runs, " + std::to_string(pruned) + " ineffective preemptions pruned); time-outs fire only when nothing can run";
+}
 } // namespace
 
 namespace vf {
-const Harness g_harness = { "cq", &grammar, &run, &kindName, nullptr };
+const Harness g_harness = { "cq", &grammar, &run, &kindName, &enumerate };
 }
